@@ -38,7 +38,7 @@ MULTI = ["3H", "2I", "5B", "64I", "2q"]
 
 def plan(tier, seed):
     if tier == "quick":
-        return [dict(seed=seed, shard=i, n=60) for i in range(16)]
+        return [dict(seed=seed, shard=i, n=250) for i in range(16)]
     return [dict(seed=seed, shard=i, n=600) for i in range(32)]
 
 
